@@ -256,10 +256,14 @@ fn gen_sys(r: &mut Rng, tier_rows: usize) -> Sys {
             }
             7 => {
                 // negatively scaled copy of a row: the opposite half-space through the same hyperplane (+ slack)
+                // (not of a thin-slab row: two opposite copies would make a set that is empty by less than the
+                // solver tolerance, where the margins of the property collide)
                 if !rows.is_empty() {
-                    kind.push_str("+opp");
                     let (a, b) = rows[r.below(rows.len())].clone();
-                    rows.push((a.iter().map(|x| -x).collect(), -b + half(r, 0, 6)));
+                    if (b * 2.0).fract() == 0.0 {
+                        kind.push_str("+opp");
+                        rows.push((a.iter().map(|x| -x).collect(), -b + half(r, 0, 6)));
+                    }
                 }
             }
             _ => {
@@ -390,7 +394,9 @@ fn main() {
     silence_panics();
     let argv: Vec<String> = std::env::args().collect();
     let args = &parse_args(&argv[1..]);
-    let mut r = Rng::new(args.seed ^ 0xC10);
+    // Rng::new(seed + 1) is Rng::new(seed) advanced by one step (additive state), and the orchestrator hands
+    // consecutive seeds to the shards: hash the seed once so that shards are unrelated streams
+    let mut r = Rng(Rng::new(args.seed ^ 0xC10).next());
     let mut out = String::new();
     let fixed = fixed_cases();
     for id in 0..args.n {
